@@ -6,6 +6,7 @@ mod model;
 mod qfam;
 mod refm;
 mod sup;
+mod tfam;
 mod wfam;
 
 use sup::*;
@@ -27,6 +28,8 @@ fn main() {
         "C09" => run_check(&wfam::C09, &args),
         "C13" => run_check(&cfam::C13, &args),
         "C14" => run_check(&cfam::C14, &args),
+        "C18" => run_check(&tfam::C18, &args),
+        "C19" => run_check(&tfam::C19, &args),
         "C06" => run_check(&wfam::C06, &args),
         "C07" => run_check(&wfam::C07, &args),
         "C08" => run_check(&wfam::C08, &args),
